@@ -290,6 +290,7 @@ class HashKey(object):
         self.unhashable = []     # (text, lineno)
         self.opaque = []
         self.raw_bytes = set()   # attrs hashed through raw .tobytes()
+        self.by_identity = set()  # attrs hashed through id()
 
 
 def _resolve_local(fdef, name):
@@ -351,6 +352,7 @@ def hash_key(model, ci, fdef):
                 hk.unhashable.extend(sub.unhashable)
                 hk.opaque.extend(sub.opaque)
                 hk.raw_bytes |= sub.raw_bytes
+                hk.by_identity |= sub.by_identity
                 return
             if isinstance(fn, ast.Attribute) and fn.attr == 'tobytes' and \
                     not e.args:
@@ -378,7 +380,11 @@ def hash_key(model, ci, fdef):
                     elem(sub, transforms + (fname,))
                 return
             if fname in ('tuple', 'frozenset', 'str', 'repr', 'float',
-                         'int', 'hash') and len(e.args) == 1:
+                         'int', 'hash', 'id') and len(e.args) == 1:
+                if fname == 'id':
+                    a5 = _attr_of(e.args[0], S)
+                    if a5 is not None:
+                        hk.by_identity.add(a5)
                 return elem(e.args[0], transforms + (fname,))
         if isinstance(e, (ast.List, ast.Set, ast.Dict, ast.ListComp,
                           ast.SetComp, ast.DictComp)):
@@ -599,6 +605,21 @@ def check(ctx):
                         'differ, so equal objects hash differently'
                         % (a.attr, a.mode), hci.rel, hfn.lineno)
 
+        for a in em.atoms:
+            if a.kind == 'cmp' and a.attr in hk.by_identity:
+                if a.mode == 'is':
+                    rep.holds('R1c', cons + ':' + a.attr,
+                              'identity key of an attribute compared by '
+                              'identity')
+                else:
+                    rep.violation(
+                        'R1c', cons,
+                        '%s is compared by value (%s) but hashed through '
+                        'id(): two equal objects that are not the same '
+                        'object (a bound method looked up twice, an equal '
+                        'callable instance) hash differently'
+                        % (a.attr, a.mode), hci.rel, hfn.lineno)
+
         # ---- R1d: broadcasting comparisons need a shape guard ---------------
         bc = [a for a in em.atoms if a.kind == 'cmp' and a.mode == 'all_eq']
         if bc:
@@ -747,6 +768,26 @@ def _reflexive(rep, model, ci, eci, efn, em):
     else:
         rep.holds('R5', cons, 'reflexive (fast path=%s, %d conjuncts '
                   'self-comparing)' % (em.fastpath, len(em.atoms)))
+    # symmetry of containment tests: `all(s in other.A for s in self.A)` is
+    # one inclusion; a == b and b == a agree only if the mirrored inclusion
+    # is tested as well (or the test is of another, symmetric kind)
+    mem = [a for a in em.atoms if a.kind == 'member']
+    def side(t):
+        return 'O' if 'other' in t else ('S' if 'self' in t else '?')
+    dirs = {(side(a.iter), side(a.container)) for a in mem}
+    if ('S', 'O') in dirs and ('O', 'S') not in dirs:
+        rep.violation('R5', cons, 'not symmetric: `%s` tests that the '
+                      'constituents of self are among those of other, the '
+                      'converse inclusion is not tested; a == b is True and '
+                      'b == a False when a has fewer constituents' % (
+                          ast.unparse([a for a in mem if (side(a.iter), side(
+                              a.container)) == ('S', 'O')][0].node),),
+                      eci.rel, efn.lineno)
+    elif ('O', 'S') in dirs and ('S', 'O') not in dirs:
+        rep.violation('R5', cons, 'not symmetric: only the constituents of '
+                      'other are looked up in self', eci.rel, efn.lineno)
+    elif mem:
+        rep.holds('R5', cons + ':symmetry', 'both inclusions are tested')
     # symmetry of the type test: isinstance(other, K) is symmetric iff no
     # subclass of K overrides __eq__ with a stricter test... checked as:
     # every class below K that overrides __eq__ calls super().__eq__ or
